@@ -15,8 +15,9 @@ func init() { commands["c16"] = c16Cmd }
 //   {"k":"sow"}    one record per day on which the automatic sowing block could act (window open or about to)
 //   {"k":"hdec"}   automatic harvest decision of a day (every change, and the days around the latest date)
 //   {"k":"harv"}   crop cursor advance (harvest executed)
-//   {"k":"airr"}   automatic irrigation applied: stage window, IRRMAX, deficit recomputed from the probed state, amount
-//   {"k":"an"}     automatic N: NFERTSIM before/after a Nitro call and the three (demand, Nmin) candidates
+//   {"k":"airr"}   automatic irrigation: the state the decision was taken on (layers, rain, forecast, stage window), fired?, amount
+//   {"k":"af"}     automatic fertilisation call: inputs of nitro.go:73-226 (NDOY/NDEM, stage, temperatures, rain, C1, organic slots),
+//                  DSUMM/NFERTSIM/NDOY/ZTDG after, Nitro replay with the organic split added by hand
 //   {"k":"final"}  rotation arrays at the end of the run
 //   {"k":"run"}    success / error
 func c16Cmd(args []string) {
@@ -52,7 +53,15 @@ func c16Arrays(g *hermes.GlobalVarsMain, m int) jobj {
 		"ernte": c10ints(g.ERNTE[:m]), "ernte2": c10ints(g.ERNTE2[:m]), "frucht": frucht,
 		"irrst1": hxs(g.IRRST1[:m]), "irrst2": hxs(g.IRRST2[:m]), "irrmax": hxs(g.IRRMAX[:m]),
 		"irrlow": hxs(g.IRRLOW[:m]), "irrdep": hxs(g.IRRDEP[:m]),
-		"ndem1": hxs(g.NDEM1[:m]), "ndem2": hxs(g.NDEM2[:m]), "ndem3": hxs(g.NDEM3[:m])}
+		"ndem1": hxs(g.NDEM1[:m]), "ndem2": hxs(g.NDEM2[:m]), "ndem3": hxs(g.NDEM3[:m]),
+		"odu": hxs(g.ODU[:m]), "orgtime": append([]string{}, g.ORGTIME[:m]...), "orgdoy": c10ints(g.ORGDOY[:m]),
+		"dgart": append([]string{}, g.DGART[:m]...), "ztdg": c10ints(g.ZTDG[:m]),
+		"ndir": hxs(g.NDIR[:m]), "nh4n": hxs(g.NH4N[:m]), "nsas": hxs(g.NSAS[:m]), "nlas": hxs(g.NLAS[:m])}
+}
+
+// c16pick: deterministic 1-in-n sampling of days
+func c16pick(lineNo, zeit, n int) bool {
+	return (uint32(zeit)*2654435761+uint32(lineNo)*40503)%uint32(n) == 0
 }
 
 func c16Line(work, line string, lineNo, slots int) {
@@ -63,14 +72,24 @@ func c16Line(work, line string, lineNo, slots int) {
 		e0, e20, ns0, ns20 int
 		akfW, saW          int
 		haveW              bool
+		henv               jobj
 		akfN               int
-		nfert0             float64
-		cand               [3][2]float64
+		afPre              jobj
+		afHave             bool
+		afDsumm, afNfert   float64
+		afNdoy             [3]float64
+		afZtdg             int
+		hFire, sFire       bool
+		preG               hermes.GlobalVarsMain
+		preN               hermes.NitroSharedVars
+		havePre            bool
+		ztdgK              int
 		last               jobj
 		days               int
 	)
 	hermes.VerifProbe = func(stage string, zeit, subd int, wdt float64, g *hermes.GlobalVarsMain, w *hermes.WaterSharedVars, n *hermes.NitroSharedVars) {
 		k := g.AKF.Index
+		ti := g.TAG.Index
 		switch stage {
 		case "evatra-pre":
 			if !inited {
@@ -81,82 +100,181 @@ func c16Line(work, line string, lineNo, slots int) {
 				emit(o)
 			}
 			days++
-			if g.NBR != nbrEnd && g.AUTOIRRI {
-				// recompute the deficit of run.go:419-440 from the probed state (rain of the day before the irrigation was added)
-				regen := g.REGENdaily
-				NFKSUM, DEFZSUM := 0.0, 0.0
-				maxdepth := g.WURZMAX
-				if int(g.IRRDEP[k]) < maxdepth {
-					maxdepth = int(g.IRRDEP[k])
+			if g.AUTOIRRI {
+				fired := g.NBR != nbrEnd
+				inWin := g.SAAT[k] > 0 && zeit > g.SAAT[k] && g.INTWICK.Num >= g.IRRST1[k] && g.INTWICK.Num < g.IRRST2[k]+1
+				if fired || (inWin && c16pick(lineNo, zeit, 9)) || c16pick(lineNo, zeit, 70) {
+					// the state the decision of run.go:415-447 was taken on (rain of the day before any irrigation was added)
+					nl := g.N
+					if nl > 12 {
+						nl = 12
+					}
+					o := jobj{"k": "airr", "line": lineNo, "zeit": zeit, "akf": k, "saat": g.SAAT[k], "intwick": hx(g.INTWICK.Num),
+						"irrst1": hx(g.IRRST1[k]), "irrst2": hx(g.IRRST2[k]), "irrmax": hx(g.IRRMAX[k]), "irrlow": hx(g.IRRLOW[k]),
+						"irrdep": hx(g.IRRDEP[k]), "wurzmax": g.WURZMAX, "regen": hx(g.REGENdaily), "dz": hx(g.DZ.Num),
+						"rain1": hx(g.REGEN[ti+1]), "rain2": hx(g.REGEN[ti+2]),
+						"wg0": hxs(g.WG[0][:nl]), "w": hxs(g.W[:nl]), "wmin": hxs(g.WMIN[:nl]),
+						"fired": fired, "adv": g.NBR - nbrEnd, "regen_post": hx(g.REGEN[ti])}
+					if fired {
+						o["amount"], o["ztbr"] = hx(g.BREG[g.NBR-2]), g.ZTBR[g.NBR-2]
+					}
+					emit(o)
 				}
-				for I := 1; I <= maxdepth; I++ {
-					index := I - 1
-					var NFK, DEFZ float64
-					if I == 1 {
-						NFK = (g.WG[0][index] + (regen / g.DZ.Num) - g.WMIN[index]) / (g.W[index] - g.WMIN[index])
-						DEFZ = (g.W[index] - g.WG[0][index] - (regen / g.DZ.Num)) * 100
-					} else {
-						NFK = (g.WG[0][index] - g.WMIN[index]) / (g.W[index] - g.WMIN[index])
-						DEFZ = (g.W[index] - g.WG[0][index]) * 100
-					}
-					if NFK < 0 {
-						NFK = 0
-					}
-					if NFK > 1 {
-						NFK = 1
-						DEFZ = 0
-					}
-					NFKSUM = NFKSUM + NFK
-					DEFZSUM = DEFZSUM + DEFZ
-				}
-				emit(jobj{"k": "airr", "line": lineNo, "zeit": zeit, "akf": k, "saat": g.SAAT[k], "intwick": hx(g.INTWICK.Num),
-					"irrst1": hx(g.IRRST1[k]), "irrst2": hx(g.IRRST2[k]), "irrmax": hx(g.IRRMAX[k]), "defzsum": hx(DEFZSUM),
-					"amount": hx(g.BREG[g.NBR-2]), "ztbr": g.ZTBR[g.NBR-2], "adv": g.NBR - nbrEnd,
-					"regen_pre": hx(regen), "regen_post": hx(g.REGEN[g.TAG.Index])})
 			}
 		case "evatra":
 			sa0, akfE = g.SAAT[k], k
 		case "steps":
 			if g.AUTOMAN && g.AKF.Num > 1 && k == akfE && (sa0 == 0 || g.SAAT[k] != sa0) && ((zeit >= g.SAAT1[k]-2 && zeit <= g.SAAT2[k]+1) || g.SAAT[k] != sa0) {
+				nw := int(g.TSLWINDOW[k])
+				temps := []float64{}
+				if nw >= 0 && ti-nw >= 0 {
+					for I := 1; I <= nw; I++ {
+						temps = append(temps, g.TEMP[ti-I])
+					}
+				}
+				rp := 0.0
+				if ti >= 1 {
+					rp = g.REGEN[ti-1]
+				}
 				emit(jobj{"k": "sow", "line": lineNo, "zeit": zeit, "akf": k, "before": sa0, "after": g.SAAT[k],
-					"saat1": g.SAAT1[k], "saat2": g.SAAT2[k], "prev": g.ERNTE[k-1]})
+					"saat1": g.SAAT1[k], "saat2": g.SAAT2[k], "prev": g.ERNTE[k-1],
+					"tagnum": hx(g.TAG.Num), "tagidx": ti, "window": hx(g.TSLWINDOW[k]), "temps": hxs(temps), "temp": hx(g.TEMP[ti]),
+					"tjahrsum": hx(g.TJAHRSUM), "tjahr": hx(g.TJAHR[k]), "tslmin": hx(g.TSLMIN[k]), "tslmax": hx(g.TSLMAX[k]),
+					"wg00": hx(g.WG[0][0]), "regen": hx(g.REGEN[ti]), "regen_prev": hx(rp), "dz": hx(g.DZ.Num),
+					"wmin0": hx(g.WMIN[0]), "wnor0": hx(g.WNOR[0]), "minmoi": hx(g.MINMOI[k]), "maxmoi": hx(g.MAXMOI[k])})
 			}
 		case "water":
 			if subd == 1 {
 				akfW, saW, haveW = k, g.SAAT[k], true
 				e0, e20, ns0, ns20 = g.ERNTE[k], g.ERNTE2[k], g.SAAT[k+1], g.SAAT2[k+1]
+				// state the harvest test of crop.go:183-199 is taken on (PhytoOut runs next)
+				ii := g.INTWICK.Index
+				henv = nil
+				if ii >= 0 && ii < 9 {
+					r1, r2, r3 := 0.0, 0.0, 0.0
+					if ti >= 3 {
+						r1, r2, r3 = g.REGEN[ti-1], g.REGEN[ti-2], g.REGEN[ti-3]
+					}
+					henv = jobj{"sum0": hx(g.SUM[0]), "tsum0": hx(g.TSUM[0]), "num": int(g.INTWICK.Num), "sum": hx(g.SUM[ii]), "tsum": hx(g.TSUM[ii]),
+						"tsum_next": hx(g.TSUM[ii+1]), "wg00": hx(g.WG[0][0]), "regen": hx(g.REGEN[ti]), "dz": hx(g.DZ.Num),
+						"wmin0": hx(g.WMIN[0]), "wnor0": hx(g.WNOR[0]), "minhmoi": hx(g.MINHMOI[k]), "maxhmoi": hx(g.MAXHMOI[k]),
+						"tagnum": hx(g.TAG.Num), "r1": hx(r1), "r2": hx(r2), "r3": hx(r3), "rainlim": hx(g.RAINLIM[k]), "rainact": hx(g.RAINACT[k])}
+				}
 			}
 		case "nitro-pre":
 			if subd == 1 && haveW && k == akfW {
 				called := g.AKF.Num > 1 && saW > 0 && zeit >= saW && zeit <= e20
 				changed := g.ERNTE[k] != e0 || g.ERNTE2[k] != e20 || g.SAAT[k+1] != ns0 || g.SAAT2[k+1] != ns20
-				if changed || (g.AUTOHAR && called && e0 == 0 && zeit >= e20-2) {
-					emit(jobj{"k": "hdec", "line": lineNo, "zeit": zeit, "akf": k, "called": called,
-						"e": []int{e0, e20, g.ERNTE[k], g.ERNTE2[k]}, "next": []int{ns0, ns20, g.SAAT[k+1], g.SAAT2[k+1]}})
+				if changed || (g.AUTOHAR && called && e0 == 0 && (zeit >= e20-2 || (g.INTWICK.Index >= 2 && c16pick(lineNo, zeit, 5)))) {
+					o := jobj{"k": "hdec", "line": lineNo, "zeit": zeit, "akf": k, "called": called,
+						"e": []int{e0, e20, g.ERNTE[k], g.ERNTE2[k]}, "next": []int{ns0, ns20, g.SAAT[k+1], g.SAAT2[k+1]}}
+					if henv != nil {
+						o["env"] = henv
+					}
+					emit(o)
 				}
 			}
-			akfN, nfert0 = k, g.NFERTSIM
+			akfN, ztdgK = k, g.ZTDG[k]
+			afHave, havePre = false, false
 			if g.AUTOFERT && subd == 1 {
-				nmin30 := 0.0
-				for i := 0; i < 3; i++ {
-					nmin30 = nmin30 + g.C1[i]
+				t5 := make([]float64, 5)
+				if ti >= 4 {
+					for i := 0; i < 5; i++ {
+						t5[i] = g.TEMP[ti-i]
+					}
 				}
-				nminw := 0.0
-				wz := g.WURZ
-				if wz > 9 {
-					wz = 9
+				rp := 0.0
+				if ti >= 1 {
+					rp = g.REGEN[ti-1]
 				}
-				for i := 0; i < wz; i++ {
-					nminw = nminw + g.C1[i]
+				prevH, curS := false, false
+				zp := 0
+				pp, pc := []float64{0, 0, 0}, []float64{g.NSAS[k], g.NLAS[k], g.NDIR[k]}
+				if k >= 1 {
+					prevH = g.ODU[k-1] == 1 && g.ORGTIME[k-1] == "H"
+					curS = g.ODU[k] == 1 && g.ORGTIME[k-1] == "S"
+					zp = g.ZTDG[k-1]
+					pp = []float64{g.NSAS[k-1], g.NLAS[k-1], g.NDIR[k-1]}
 				}
-				cand = [3][2]float64{{g.NDEM1[k], nmin30}, {g.NDEM2[k], nminw}, {g.NDEM3[k], nminw}}
+				afPre = jobj{"k": "af", "line": lineNo, "zeit": zeit, "akf": k, "saat": g.SAAT[k], "intwick": hx(g.INTWICK.Num), "tagnum": hx(g.TAG.Num),
+					"t5": hxs(t5), "regen": hx(g.REGEN[ti]), "regen_prev": hx(rp), "regen_next": hx(g.REGEN[ti+1]),
+					"c1": hxs(g.C1[:9]), "wurz": g.WURZ, "ndem": []string{hx(g.NDEM1[k]), hx(g.NDEM2[k]), hx(g.NDEM3[k])},
+					"ndoy": []string{hx(g.NDOY1[k]), hx(g.NDOY2[k]), hx(g.NDOY3[k])},
+					"prev_h": prevH, "ztdg_prev": zp, "pay_prev": hxs(pp), "cur_s": curS, "orgdoy": g.ORGDOY[k], "pay_cur": hxs(pc), "ztdg": g.ZTDG[k],
+					"pools": []string{hx(g.NFOS[0]), hx(g.NAOS[0]), hx(g.DSUMM), hx(g.C1[0]), hx(g.NFERTSIM)}}
+				afHave = true
+				afDsumm, afNfert, afZtdg = g.DSUMM, g.NFERTSIM, g.ZTDG[k]
+				afNdoy = [3]float64{g.NDOY1[k], g.NDOY2[k], g.NDOY3[k]}
+				// is an organic application due in this call?  (integer logic of nitro.go:74-76, 90-96)
+				hFire = prevH && zeit == zp
+				sFire = false
+				if g.SAAT[k] > 0 && zeit >= g.SAAT[k] && curS {
+					zt := g.ZTDG[k]
+					if zeit == g.SAAT[k] {
+						zt = zeit + g.ORGDOY[k]
+					}
+					sFire = zeit == zt
+				}
+				if (hFire || sFire) && zeit != g.ERNTE[k] {
+					preG, preN, havePre = *g, *n, true
+				}
 			}
 		case "nitro":
 			if g.AKF.Index != akfN {
-				emit(jobj{"k": "harv", "line": lineNo, "zeit": zeit, "subd": subd, "akf": akfN, "adv": g.AKF.Index - akfN})
-			} else if g.AUTOFERT && !c10same(g.NFERTSIM, nfert0) {
-				emit(jobj{"k": "an", "line": lineNo, "zeit": zeit, "subd": subd, "akf": akfN, "pre": hx(nfert0), "post": hx(g.NFERTSIM),
-					"cand": [][]string{{hx(cand[0][0]), hx(cand[0][1])}, {hx(cand[1][0]), hx(cand[1][1])}, {hx(cand[2][0]), hx(cand[2][1])}}})
+				kk := akfN
+				o := jobj{"k": "harv", "line": lineNo, "zeit": zeit, "subd": subd, "akf": kk, "adv": g.AKF.Index - kk,
+					"org_h": g.ODU[kk] == 1 && g.ORGTIME[kk] == "H", "orgdoy": g.ORGDOY[kk], "saat2_next": g.SAAT2[kk+1], "automan": g.AUTOMAN,
+					"ztdg_before": ztdgK, "ztdg_after": g.ZTDG[kk], "einte_next": g.EINTE[g.NTIL.Index+1]}
+				emit(o)
+			} else if afHave {
+				changed := !c10same(g.NFERTSIM, afNfert) || !c10same(g.DSUMM, afDsumm) || g.ZTDG[k] != afZtdg ||
+					!c10same(g.NDOY1[k], afNdoy[0]) || !c10same(g.NDOY2[k], afNdoy[1]) || !c10same(g.NDOY3[k], afNdoy[2])
+				gate := g.SAAT[k] > 0 && zeit >= g.SAAT[k]
+				if changed || hFire || sFire || (gate && c16pick(lineNo, zeit, 14)) || c16pick(lineNo, zeit, 90) {
+					afPre["post"] = []string{hx(g.DSUMM), hx(g.NFERTSIM), hx(g.NDOY1[k]), hx(g.NDOY2[k]), hx(g.NDOY3[k])}
+					afPre["ztdg_post"] = g.ZTDG[k]
+					afPre["h_fire"], afPre["s_fire"] = hFire, sFire
+					replay := "none"
+					if havePre {
+						// property statement applied by hand on a copy of the pre-state, organic branch disabled, Nitro re-run:
+						// must reproduce the real post-state bit for bit
+						gg, ll := preG, preN
+						if hFire {
+							gg.NFOS[0] += gg.NSAS[k-1]
+							gg.NAOS[0] += gg.NLAS[k-1]
+							gg.DSUMM += gg.NDIR[k-1]
+							gg.ODU[k-1] = 0
+						}
+						if sFire {
+							gg.NFOS[0] += gg.NSAS[k]
+							gg.NAOS[0] += gg.NLAS[k]
+							gg.C1[0] += gg.NDIR[k]
+							if gg.C1[0] < 0 {
+								gg.C1[0] = 0
+							}
+							gg.ODU[k] = 0
+						}
+						if c10Mute(&gg) {
+							var ln hermes.NitroBBBSharedVars
+							var hp hermes.HFilePath
+							var out hermes.CropOutputVars
+							_, err := hermes.Nitro(wdt, subd, zeit, &gg, &ll, &ln, &hp, &out)
+							ok := err == nil && c10same(gg.DSUMM, g.DSUMM) && c10same(gg.NFERTSIM, g.NFERTSIM)
+							for i := 0; i < 21 && ok; i++ {
+								ok = c10same(gg.NFOS[i], g.NFOS[i]) && c10same(gg.NAOS[i], g.NAOS[i]) && c10same(gg.C1[i], g.C1[i])
+							}
+							if ok {
+								replay = "ok"
+							} else {
+								replay = "differs"
+							}
+						} else {
+							replay = "no-mute"
+						}
+					}
+					afPre["replay"] = replay
+					emit(afPre)
+				}
 			}
 		case "dayend":
 			nbrEnd = g.NBR
